@@ -158,7 +158,10 @@ def _run_shard(args):
 
 def run_slices(ctx: Ctx, slices: List[Slice], pool_jobs: Optional[int] = None) -> None:
     """Enumerate every slice completely on `jobs` worker processes and fold results into ctx."""
-    global _SLICES, _ABORT  # pylint: disable=global-statement
+    global _SLICES, _ABORT, CASE_CPU_LIMIT  # pylint: disable=global-statement
+    if "VERIF_CASE_CPU_LIMIT" not in os.environ:
+        # the largest case of the quick tier uses ~45 CPU-s (evidence: max_case_cpu_s); thorough cases are several times larger
+        CASE_CPU_LIMIT = 900.0 if getattr(ctx, "tier", "quick") == "quick" else 3600.0
     _SLICES = slices
     _ABORT = mp.get_context("fork").Array("b", max(1, len(slices)), lock=False)
     jobs = pool_jobs or ctx.jobs
